@@ -187,6 +187,33 @@ func checkC16(c *ExecCase) (*ev.Failure, string) {
 		}
 		return ev.Failf("differs:"+metaFieldOf(field)+":"+cls, "%s", msg), ""
 	}
+	// the same operation answered concurrently with other variable values (elements of one batch): every element
+	// is answered with its own variables
+	if wv := warmupVariables(c.Op.Variables, typeNames(merged)); wv != nil {
+		var batch []gwx.GQLRequest
+		for i := 0; i < 8; i++ {
+			v := c.Op.Variables
+			if i%2 == 1 {
+				v = wv
+			}
+			batch = append(batch, gwx.GQLRequest{Query: c.Op.Query, Variables: v, OperationName: c.Op.OperationName})
+		}
+		body, _ := json.Marshal(batch)
+		br := gwx.Post(gw, body, "application/json", 15*time.Second)
+		var raw []json.RawMessage
+		if br.TimedOut || br.Panic != "" || json.Unmarshal(br.Body, &raw) != nil || len(raw) != len(batch) {
+			return ev.Failf("envelope", "batch of introspection operations: status %d panic %q body %s", br.Status, trunc(br.Panic, 200), trunc(string(br.Body), 200)), ""
+		}
+		for i := 0; i < len(raw); i += 2 {
+			d, derr := gwx.Decode(raw[i])
+			if derr != nil || len(d.Errors) > 0 {
+				return ev.Failf("gateway-errors", "element %d of a batch of introspection operations: %s", i, trunc(string(raw[i]), 300)), ""
+			}
+			if cls, msg := refexec.Diff(canonLists(expected), canonLists(refexec.Normalize(map[string]interface{}(d.Data))), "data"); cls != "" {
+				return ev.Failf("differs:concurrent:"+cls, "element %d of a batch that mixes this operation with other variable values: %s", i, msg), ""
+			}
+		}
+	}
 	class := "partial"
 	if c.Op.Query == introspect.StandardQuery {
 		class = "standard"
@@ -329,7 +356,7 @@ func genIntrospectionOp(t *rapid.T, schema *ast.Schema) *opgen.Op {
 
 func TestC16(t *testing.T) {
 	rec := ev.Get("C16")
-	rec.Rule = "gateway over (a) a generated federated world or (b) one service with a generated type-system-rich schema (descriptions, deprecations, directives, defaults, wrappers) x introspection operation: the standard query (1 in 6) or a grammar-generated selection over the meta-schema (aliases, fragments, @skip/@include, __type by literal and by variable with existing/builtin/unknown names, includeDeprecated literal/variable/omitted); before it up to four data operations that spread a fragment on one abstract type inside a root field of another are served by the same gateway; oracle: answer == harness resolver on the merger's schema (lists order-insensitive), no downstream request, and for the standard query a standard client rebuilds a schema with exactly the enforced schema's facts, and so does the gateway's own introspection client pointed at this gateway (a second gateway; directive repeatability aside, KF-C15-1); non-trivial = selection reaching depth>=3 of the meta-schema on a schema with interface/union/input/enum; distinct by hash(case)"
+	rec.Rule = "gateway over (a) a generated federated world or (b) one service with a generated type-system-rich schema (descriptions, deprecations, directives, defaults, wrappers) x introspection operation: the standard query (1 in 6) or a grammar-generated selection over the meta-schema (aliases, fragments, @skip/@include, __type by literal and by variable with existing/builtin/unknown names, includeDeprecated literal/variable/omitted); before it up to four data operations that spread a fragment on one abstract type inside a root field of another are served by the same gateway; then the operation is also sent four times inside one batch that alternates it with other variable values; oracle: answer == harness resolver on the merger's schema (lists order-insensitive), no downstream request, and for the standard query a standard client rebuilds a schema with exactly the enforced schema's facts, and so does the gateway's own introspection client pointed at this gateway (a second gateway; directive repeatability aside, KF-C15-1); non-trivial = selection reaching depth>=3 of the meta-schema on a schema with interface/union/input/enum; distinct by hash(case)"
 	defer census.dump("C16")
 	rapid.Check(t, func(t *rapid.T) {
 		var w *world.World
